@@ -345,4 +345,6 @@ def parts(tier):
     ps.append(InputPart("insertSpace-textgrid", gen_tg, lambda c: _check_tg(c, c[1] == 0.0),
                         rule="3-tier textgrids x s x d x 4 modes: tier-wise model comparison, span + d, validate() True",
                         bounds={"tiers": 3}))
+    from mc.props import live as _live_hist
+    ps.append(_live_hist.history_part())
     return ps
